@@ -69,6 +69,8 @@ def check_prefixes(rep, drv, case, mode, data, with_schema, cuts):
                 rep.fail('prefix-closed-bytesio-' + '-'.join(o[-2:]),
                          'closed non-blocking BytesIO holding a proper prefix (cut %d of %d, max_read %s) -> %s' % (k, len(data), max_read, o),
                          dict(base, stream='nonblocking-bytesio', max_read=max_read))
+        if k % 3 == 1 or k == len(data) - 1:
+            check_instalments(rep, dec, schema, pre, base)
         # (b) seekable stream closed after byte k
         for seekable in (True, False):
             s = streams.GrowingStream(seekable=seekable)
@@ -87,6 +89,45 @@ def check_prefixes(rep, drv, case, mode, data, with_schema, cuts):
                 rep.fail('prefix-open-stream-' + '-'.join(o[-2:]),
                          'open stream (%s) holding a proper prefix (cut %d of %d) -> %s' % ('seekable' if seekable else 'non-seekable', k, len(data), o),
                          dict(base, seekable=seekable))
+
+
+def check_instalments(rep, dec, schema, pre, base):
+    """a proper prefix arriving in two instalments with one, two or three empty polls in between (the wrapper's cached
+    octets must survive every "no data yet" answer): only underruns while the stream is open, end of stream once closed"""
+    n = len(pre)
+    if n < 2:
+        return
+    splits = sorted({1, n // 2, n - 1})
+    for seekable in (False, True):
+        for j in splits:
+            for polls in (1, 2, 3):
+                s = streams.GrowingStream(seekable=seekable)
+                out = []
+                try:
+                    it = iter(dec.StreamingDecoder(s, asn1Spec=schema))
+
+                    def step():
+                        x = next(it)
+                        out.append('U' if isinstance(x, error.SubstrateUnderrunError) else 'V')
+                    s.feed(pre[:j])
+                    for _ in range(polls):
+                        step()
+                    s.feed(pre[j:])
+                    for _ in range(2):
+                        step()
+                    s.close_input()
+                    for _ in range(3):
+                        step()
+                except StopIteration:
+                    out.append('stop')
+                except Exception as e:  # noqa
+                    out.append('EOS' if isinstance(e, error.EndOfStreamError) else codec.classify(e))
+                rep.count('instalments')
+                if out[-1] != 'EOS' or any(x != 'U' for x in out[:-1]):
+                    rep.fail('prefix-instalments-' + '-'.join(out[-2:]),
+                             'a proper prefix (%d octets) arriving as %d + %d octets with %d empty poll(s) in between on a %s stream -> %s' % (
+                                 n, j, n - j, polls, 'seekable' if seekable else 'non-seekable', out),
+                             dict(base, seekable=seekable, split=j, polls=polls))
 
 
 def check_megabyte_elements(rep):
